@@ -203,6 +203,9 @@ macro_rules! hash_kind_btc {
 hash_kind_btc!(elements::PubkeyHash, "pubkeyhash", 20);
 hash_kind_btc!(elements::WPubkeyHash, "wpubkeyhash", 20);
 
+#[path = "c20_derive.rs"]
+mod derive;
+
 // ------------------------------------------------------------------------------------------ tree mutation
 
 fn count_nodes(t: &Tok) -> usize {
@@ -1565,6 +1568,9 @@ pub fn run(rng: &mut R, out: &mut Out) {
         }
         s_formats(out, "pset_neutral", &q, &|| format!("pset(neutralised) {}", hex(&serialize(&q))));
     }
+
+    // ---------------- serde: the derived impls inside the model (K)
+    derive::run(rng, out, &psets);
 }
 
 fn input_has_byte_maps(i: &pset::Input) -> bool {
